@@ -4,7 +4,8 @@ mod hash_union;
 mod models;
 mod panic;
 
-use syn::{Data, DeriveInput, Meta};
+use quote::format_ident;
+use syn::{Data, DeriveInput, GenericParam, Generics, Ident, Meta};
 
 use super::TraitHandler;
 use crate::Trait;
@@ -31,4 +32,20 @@ impl TraitHandler for HashHandler {
             },
         }
     }
+}
+
+/// The name of the `Hasher` type parameter of the generated `hash` method: `H`, extended with `_` as
+/// long as the type's own generic parameters already use that name.
+fn hasher_type_parameter(generics: &Generics) -> Ident {
+    let mut ident = format_ident!("H");
+
+    while generics.params.iter().any(|param| match param {
+        GenericParam::Type(param) => param.ident == ident,
+        GenericParam::Const(param) => param.ident == ident,
+        GenericParam::Lifetime(_) => false,
+    }) {
+        ident = format_ident!("{}_", ident);
+    }
+
+    ident
 }
